@@ -297,6 +297,24 @@ def run(tier, fx=None, ck=None, control=False):
                     continue
                 reach = {te[0]} | g.reachable_from(te[0], stop=heads)
                 found.setdefault(c[1], []).append((bi, reach, t))
+            # segments removed before the loop sees them: `split('/').filter(|s| !matches!(*s, "" | "."))` - a closure handed to Iterator::filter between the
+            # split and the loop, which compares its argument with K and returns the negation of the match
+            for bi, t in g.calls():
+                if not (t[1].get("u") or "").endswith("Iterator::filter") or len(t[2]) < 2 or t[2][0][0] not in ("c", "m") or not derives_from(g, t[2][0][1][0], split_locals):
+                    continue
+                cd = g.defs().get(t[2][1][1][0], []) if t[2][1][0] in ("c", "m") else []
+                if len(cd) != 1 or cd[0][1] == "T" or cd[0][2][0] != "agg" or not isinstance(cd[0][2][1], dict) or cd[0][2][1].get("k") != "closure":
+                    continue
+                body = fx.fns.get(cd[0][2][1].get("p"))
+                if body is None:
+                    continue
+                negated = any(s_[0] == "a" and s_[1][0] == 0 and s_[2][0] == "un" and s_[2][1] == "Not" for bl_ in body.blocks for s_ in bl_["s"])
+                if not negated:
+                    continue
+                for b2, t2 in body.calls():
+                    c = str_const_cmp(t2, body)
+                    if c is not None and c[1] in ("", "."):
+                        found.setdefault(c[1], []).append((bi, set(), t2))
             for k in ("", ".", ".."):
                 name = {"": "empty segment", ".": "'.'", "..": "'..'"}[k]
                 if k not in found:
